@@ -347,3 +347,43 @@ def engine_context(conn: Any) -> tuple[str, str]:
     """current_database(), current_schema() as the engine sees them for this session."""
     r = raw_of(conn).execute("select current_database(), current_schema()").fetchall()[0]
     return r[0], r[1]
+
+
+# ----------------------------------------------------------------------------
+# the repository's own tests as a workload under the always-on invariants (fsverif/pytest_monitors.py)
+# ----------------------------------------------------------------------------
+def run_repo_tests_under_monitors(env: "Env", key_prefix: str) -> None:
+    """Runs the repository's test-suite in a subprocess with the monitor plugin loaded; witnesses whose key starts with
+    key_prefix become witnesses of this run, the plugin's evaluation counters are added to the evidence."""
+    import subprocess
+    import tempfile
+
+    here = os.path.dirname(os.path.dirname(os.path.abspath(__file__)))
+    out = tempfile.mktemp(prefix="fsverif-pytest-", suffix=".json")
+    cmd = [sys.executable, "-m", "pytest", "-q", "-x", "-p", "no:cacheprovider", "-p", "fsverif.pytest_monitors", "--timeout=900",
+           "--deselect", "tests/test_fakes.py::test_get_result_batches", "--deselect", "tests/test_fakes.py::test_get_result_batches_dict"]
+    try:
+        pr = subprocess.run(cmd, cwd=REPO, capture_output=True, text=True, timeout=900,
+                            env={**os.environ, "PYTHONPATH": REPO + os.pathsep + here, "FSVERIF_PYTEST_OUT": out})
+    except subprocess.TimeoutExpired:
+        raise Inconclusive("repository tests under monitors: watchdog") from None
+    try:
+        with open(out) as f:
+            res = json.load(f)
+    except (OSError, ValueError):
+        raise Inconclusive(f"repository tests under monitors wrote no result: {pr.stdout[-300:]} {pr.stderr[-300:]}") from None
+    finally:
+        try:
+            os.unlink(out)
+        except OSError:
+            pass
+    env.count("repo_test_runs_under_monitors")
+    if res.get("exitstatus") != 0:
+        env.count("repo_test_runs_with_failing_tests")
+    for name, n in res["counts"].items():
+        if not name.startswith("witness:"):
+            env.count("repo_tests/" + name, n)
+    for w in res["witnesses"]:
+        if w["key"].startswith(key_prefix):
+            env.witness(w["key"], f"{w['detail']} (in {w['test']})")
+    env.nontrivial(("repo_tests", key_prefix))
